@@ -106,6 +106,9 @@ func structPayload(v interface{}) ([]byte, error) {
 							wr.writeBytes(tag, b)
 						}
 					}
+				} else if vValue.Kind() == reflect.Ptr && vValue.IsNil() {
+					// no value, no item – this is what the decoder makes of a missing item
+					continue
 				} else {
 					e := interfaceOf(vValue)
 					if b, err := structPayload(e); err != nil {
